@@ -21,7 +21,9 @@ class C07(Check):
     def gen(self, rng, i, tier):
         # ONE codemod per experiment: the statement is about re-running "the same codemod"; a sequence K1;K2 is not
         # claimed to be a fixed point (K1 may legitimately act on what K2 produced)
-        exp = G.gen_general(rng, max_codemods=1)
+        # registered codemods only: the harness-defined plugin codemods (e.g. "add an element to every <config>") are not
+        # idempotent by construction and C07 makes no claim about them
+        exp = G.gen_general(rng, kinds=("ff", "ff", "ff-dep", "sast"), max_codemods=1)
         exp["include"] = exp["include"][:1]
         if tier == "quick" and i < 101:
             # walk the registry once: one trigger snippet of every codemod
@@ -35,6 +37,11 @@ class C07(Check):
                 files = [{"path": path, "snippets": [r["idx"]], "layout": lay}] + G.gen_manifests(rng, k=rng.choice([0, 0, 1]))
                 exp = {"kind": "registry-walk", "world_spec": {"files": files}, "include": [cid], "plugins": False,
                        "path_include": None, "extra_findings": {}}
+        if tier == "quick" and 101 <= i < 101 + len(W.snippets()) - 1203:
+            # the hand-added corpus entries (shapes the harvested tests lack), every run
+            r = W.snippets()[1203 + i - 101]
+            exp = {"kind": "hand-added", "world_spec": {"files": [{"path": "pkg/hand.py", "snippets": [r["idx"]], "layout": {}}]},
+                   "include": [r["codemod"]], "plugins": False, "path_include": None, "extra_findings": {}}
         if tier == "thorough" and i < 1203:
             # walk the whole snippet corpus once
             r = W.snippets()[i]
@@ -43,6 +50,10 @@ class C07(Check):
                 files = [{"path": path, "snippets": [r["idx"]], "layout": {}}] + G.gen_manifests(rng, k=rng.choice([0, 0, 1]))
                 exp = {"kind": "corpus-walk", "world_spec": {"files": files}, "include": [r["codemod"]], "plugins": False,
                        "path_include": None, "extra_findings": {}}
+        if tier == "thorough" and 1203 + 3 * 101 <= i < 1203 + 3 * 101 + len(W.snippets()) - 1203:
+            r = W.snippets()[1203 + i - (1203 + 3 * 101)]
+            exp = {"kind": "hand-added", "world_spec": {"files": [{"path": "pkg/hand.py", "snippets": [r["idx"]], "layout": {}}]},
+                   "include": [r["codemod"]], "plugins": False, "path_include": None, "extra_findings": {}}
         if tier == "thorough" and 1203 <= i < 1203 + 3 * 101:
             # every codemod with two of its own trigger snippets in ONE file (several sites per file)
             j = i - 1203
